@@ -110,13 +110,13 @@ def exh_history(idx):
 
 
 def gen_api(rng):
-    key = rng.choice([('p', 1), ('p', 1), ('p', 2)])
+    key = rng.choice([('p', 1), ('p', 1), ('p', 2), ('tok', 0)])
     name, n = key
     hist = []
     c = {'api_histories': 1}
 
     def fact():
-        return C(name, *[rng.choice(VALS) for _ in range(n)])
+        return C(name, *[rng.choice(VALS) for _ in range(n)]) if n else A(name)
     big = rng.random() < 0.15
     live = []
     if big:
@@ -124,7 +124,7 @@ def gen_api(rng):
         nbig = rng.choice([17, 33, 34, 40, 65, 70, 130])
         c['large_predicates'] = 1
         for i in range(nbig):
-            t = C(name, *([I(100 + i)] + [rng.choice(VALS) for _ in range(n - 1)]))
+            t = C(name, *([I(100 + i)] + [rng.choice(VALS) for _ in range(n - 1)])) if n else A(name)
             hist.append(('assert_fact', t, True))
             live.append(100 + i)
         nxt = [100 + nbig]
@@ -146,7 +146,7 @@ def gen_api(rng):
                 hist.append(('start', vi, name, args))
                 c['query_enumerations'] = c.get('query_enumerations', 0) + 1
             else:
-                hist.append(('start', vi, 'retract', [C(name, *args)]))
+                hist.append(('start', vi, 'retract', [C(name, *args) if n else A(name)]))
                 c['retract_enumerations'] = c.get('retract_enumerations', 0) + 1
             hist.append(('next', vi))
             open_.append(vi)
@@ -162,10 +162,10 @@ def gen_api(rng):
             m = rng.random()
             if m < 0.45 and live:
                 k = live.pop(-1) if rng.random() < 0.5 else live.pop(0) if rng.random() < 0.5 else live.pop(rng.randrange(len(live)))
-                hist.append(('run', 'retract', [C(name, *([I(k)] + [V('_')] * (n - 1)))], 1))
+                hist.append(('run', 'retract', [C(name, *([I(k)] + [V('_')] * (n - 1))) if n else A(name)], 1))
             else:
                 z = rng.random() < 0.6
-                t = C(name, *([I(nxt[0])] + [rng.choice(VALS) for _ in range(n - 1)]))
+                t = C(name, *([I(nxt[0])] + [rng.choice(VALS) for _ in range(n - 1)])) if n else A(name)
                 hist.append(('assert_fact', t, z))
                 if z:
                     live.append(nxt[0])
@@ -181,10 +181,10 @@ def gen_api(rng):
             elif m < 0.55:
                 hist.append(('run', rng.choice(['assertz', 'asserta']), [fact()], None))
             elif m < 0.8:
-                pat = C(name, *[V('_') if rng.random() < 0.6 else rng.choice(VALS) for _ in range(n)])
+                pat = C(name, *[V('_') if rng.random() < 0.6 else rng.choice(VALS) for _ in range(n)]) if n else A(name)
                 hist.append(('run', 'retract', [pat], rng.choice([1, 1, None])))
             else:
-                pat = C(name, *[V('_') if rng.random() < 0.5 else rng.choice(VALS) for _ in range(n)])
+                pat = C(name, *[V('_') if rng.random() < 0.5 else rng.choice(VALS) for _ in range(n)]) if n else A(name)
                 hist.append(('run', 'retractall', [pat], None))
             if open_:
                 mods += 1
@@ -219,6 +219,17 @@ def gen_compiled(rng):
         for _ in range(rng.choice([1, 2, 3])):
             hist.append(('run', 'cnt', [], None))
         c['idiom_counter'] = 1
+    elif r < 0.29:
+        # token pool of zero-argument facts: take one, take another, give one back, fail
+        for _ in range(rng.choice([2, 3, 4])):
+            hist.append(('assert_fact', A('tok'), True))
+        goals = [('call', C('retract', A('tok')))]
+        for _ in range(rng.choice([1, 2])):
+            goals.append(rng.choice([('call', C('once', C('retract', A('tok')))), ('call', C('assertz', A('tok'))), ('call', C('asserta', A('tok'))), ('call', A('tok'))]))
+        goals.append(('fail',))
+        cl = [(A('work'), gen.conj(goals)), (A('work'), ('true',))]
+        hist += [('load', cl, True), ('run', 'work', [], None), ('dump', [('tok', 0)])]
+        c['idiom_token_pool'] = 1
     elif r < 0.34:
         cl = [(C('t', X), gen.conj([('call', C('assertz', C('p', I(1)))), ('call', C('p', X)), ('call', C('assertz', C('p', I(2))))]))]
         hist += [('load', cl, True), ('run', 't', [V('Q0')], rng.choice([None, None, 1, 2]))]
